@@ -113,7 +113,7 @@ RNext ==
   \/ (r.pc = "choose" /\ \E n \in Lens : \E H \in Choices(n) : RChoose(n, H))
   \/ \E n \in ReadSizes : RCall(n)
   \/ RCopy
-  \/ \E c \in SrcChunks : RFill(SrcRet(c))
+  \/ (r.pc = "fill" /\ \E m \in 0..B : (\E c \in SrcChunks : m = SrcRet(c)) /\ RFill(m))
 
 \* ------------------------------------------------------------------ writer (BCJWriter::write)
 W0 == [pc |-> "choose", fed |-> 0, wdone |-> 0, wpos |-> 0, conv |-> {}, sunk |-> 0, handed |-> 0,
@@ -136,6 +136,10 @@ WWrite(n, c1, c2) ==   \* write(&data[fed .. fed+n]); the sink accepts at most c
                               !.handed = @ + n,
                               !.sunk = @ + Accept(p, c1) + Accept(t, c2), !.p = p, !.t = t]
   /\ UNCHANGED <<len, heads, r, d>>
+
+\* <<processed, raw tail>> of write(n) in the current state
+WParts(n) == IF Buffered THEN LET s == Reach(heads, w.wdone, w.fed + n) IN <<s[1] - w.wdone, 0>>
+             ELSE LET s == Reach(heads, w.fed, w.fed + n) IN <<s[1] - w.fed, n - (s[1] - w.fed)>>
 
 WFlush == /\ Mode = "writer" /\ w.pc = "idle" /\ ~w.fin /\ UNCHANGED vars    \* inner.flush() only
 
@@ -199,7 +203,7 @@ DNext ==
 \* ------------------------------------------------------------------ specification
 Init == /\ len = 0 /\ heads = << >>
         /\ r = R0 /\ w = W0 /\ d = D0
-Next == (Mode = "reader" /\ RNext) \/ (Mode = "writer" /\ WNext) \/ (Mode = "delta" /\ DNext)
+Next == RNext \/ WNext \/ DNext
 Spec == Init /\ [][Next]_vars
 
 \* ------------------------------------------------------------------ properties
